@@ -18,7 +18,8 @@
     Wave 4: [C07_roundtrip] -- the complete round trip for ALL plain connected graphs WITH ring edges, unbounded;
     [C07_small] remains as an independent computational cross-check (it no longer carries the ring case).
     Hypotheses that stay: the ring transcript's contract (the set order is a recorded transcript), and
-    "plain" (integer orders on every adjacency entry, no aromatic/bonding attribute) instead of wf_C07. *)
+    for the older statements "plain" (string names, integer orders on every adjacency entry, no bonding attribute)
+    and the names' hypotheses; [C07_roundtrip_wf] has none of them: it is stated on wf_C07. *)
 From Coq Require Import String.
 From Coq Require Import List Ascii ZArith Bool.
 From CGV Require Import Base.PyBase Base.PyVal Base.NxGraph Write.WriteImpl Write.WriteDefs Write.WriteCheck
@@ -27,7 +28,7 @@ From CGV Require Import Dialect.DialectImpl Reader.ReaderImpl Reader.Grammar.
 From CGV Require Import Write.TreeDefs Write.TreeWrite Write.TreeTables Write.DfsProofs Write.WfFacts Write.ConnFacts Write.TreeRead
      Write.TreeRound Write.RingDefs Write.RingWrite Write.RingTables Write.RingMarkers Write.RingClose Write.RingRead Write.RingRound.
 From CGV Require Import Reader.Lin.
-From CGV Require Import Write.GraphOps Write.FlatMachine Write.FullMachine Write.FullRound Write.ContractBridge.
+From CGV Require Import Write.GraphOps Write.FlatMachine Write.FullMachine Write.FullRound Write.ContractBridge Write.FullDomain.
 Import ListNotations.
 Open Scope Z_scope.
 
@@ -110,7 +111,7 @@ Proof. exact dfs_spanning_small. Qed.
 (** ================================================================ wave 2: trees, DFS, rings (all unbounded) *)
 
 (** UNBOUNDED round trip for TREES: every plain graph (string names, integer orders 0..4 on every adjacency entry,
-    no aromatic/bonding attribute) without non-tree edges -- any branching, any depth -- is written by
+    no bonding attribute) without non-tree edges -- any branching, any depth -- is written by
     write_cgsmiles_graph and read back by the reader model (via the reader component's reader_sim_lin) as [gtree]
     of its own DFS tree T: the same tree, numbered in the order of writing, with the attributes the node parser
     gives for the same names and the same orders.  No class excluded. *)
@@ -230,6 +231,19 @@ Theorem C07_roundtrip_contract : forall fo A g tr start,
   exists s h, write_cgsmiles_graph g tr = Ok s /\ read_cgsmiles fo s = Ok h /\ graph_iso A g h.
 Proof. exact ContractBridge.C07_roundtrip_contract. Qed.
 
+(** C07 on the check's OWN domain [wf_C07] (non-empty, well-formed, connected, every node a valid name -- letters,
+    digits, '_' -- and no `bonding`, every edge an integer order 0..4; an `aromatic` attribute is allowed) with the
+    boolean contract the check evaluates on every case, and NO further hypothesis: valid names are accepted by the
+    reader's grammar and parsed without the float oracle ([valid_name_ok], [valid_name_parse]); the node read back for
+    k carries what the node parser returns for k's name ([base_attrs]: fragname, charge 0.0, weight 1.0) *)
+Theorem C07_roundtrip_wf : forall g tr, wf_C07 g = true -> ring_contract g (dfs_tree g) tr = true ->
+  exists s h, write_cgsmiles_graph g tr = Ok s /\ read_cgsmiles no_float s = Ok h
+              /\ graph_iso (fun k => base_attrs (name_of g k)) g h.
+Proof. exact FullDomain.C07_roundtrip_wf. Qed.
+Theorem C07_base_attrs : forall s, base_attrs s = [(S "fragname", VStr s); (S "charge", VFlt (S "0.0")); (S "weight", VFlt (S "1.0"))].
+Proof. reflexivity. Qed.
+
+Print Assumptions C07_roundtrip_wf.
 Print Assumptions C07_roundtrip_contract.
 Print Assumptions C07_roundtrip.
 Print Assumptions C07_tree_roundtrip.
